@@ -202,16 +202,29 @@ fn check_binary(a: &RefNat, b: &RefNat, rep: &mut Report) -> Result<(), String> 
     Ok(())
 }
 
+/// run a pure check; a panic inside OxiDD's number code becomes an error of its own category
+fn no_panic<T>(f: impl FnOnce() -> Result<T, String>) -> Result<T, String> {
+    match std::panic::catch_unwind(std::panic::AssertUnwindSafe(f)) {
+        Ok(r) => r,
+        Err(e) => {
+            let m = panic_msg(&e);
+            let first = m.lines().next().unwrap_or("").to_string();
+            let short: String = first.chars().map(|c| if c.is_ascii_alphanumeric() { c } else { '-' }).take(40).collect();
+            Err(format!("panic-{short}: the operation panicked: {first}"))
+        }
+    }
+}
+
 fn natural_boundary(rep: &mut Report) {
     let b = boundary();
     for r in &b {
-        if let Err(m) = check_unary(r, rep) {
+        if let Err(m) = no_panic(|| check_unary(r, rep)) {
             rep.viol(format!("C12/natural/{}", crate::hrun::category(&m)), m, json!({"value_digits_le": format!("{:x?}", r.0)}));
         }
     }
     for x in &b {
         for y in &b {
-            if let Err(m) = check_binary(x, y, rep) {
+            if let Err(m) = no_panic(|| check_binary(x, y, rep)) {
                 rep.viol(format!("C12/natural/{}", crate::hrun::category(&m)), m, json!({"a_digits_le": format!("{:x?}", x.0), "b_digits_le": format!("{:x?}", y.0)}));
             }
             if x.0.len() != y.0.len() || x.add(y).0.len() > x.0.len().max(y.0.len()) {
@@ -264,7 +277,7 @@ fn natural_random(seed: u64, cases: u32, rep: &mut Report) {
         cases,
         &strat,
         |c| progress(&json!({"sig": "C12/natural/random/crash", "case": format!("{c:x?}")}).to_string()),
-        |(a, b, ops)| {
+        |(a, b, ops)| no_panic(|| {
             let mut r = Report::default();
             let (ra, rb) = (RefNat::from_digits(a), RefNat::from_digits(b));
             check_unary(&ra, &mut r)?;
@@ -298,7 +311,7 @@ fn natural_random(seed: u64, cases: u32, rep: &mut Report) {
                 }
             }
             Ok(())
-        },
+        }),
     );
     evals += out.cases * 60;
     rep.evaluations += evals;
